@@ -651,6 +651,7 @@ class DefiniteAssignment(MustAnalysis):
         super().__init__(fnode, init_tokens=params)
         self.locals = local_names(fnode) | set(params)
         self.reports = {}  # (name) -> (node, facts description)
+        self.none_uses = {}  # ("none", name, line) -> (node, facts)
 
     def gen(self, stmt):
         return bound_names_of_stmt(stmt)
@@ -666,6 +667,20 @@ class DefiniteAssignment(MustAnalysis):
                 key = n.id
                 if key not in self.reports:
                     self.reports[key] = (n, describe(state.facts))
+        # dereference of a name that is None on this path: len(x), x.attr, x[i]
+        none = Const(None)
+        for n in ast.walk(expr):
+            tgt = None
+            if isinstance(n, ast.Call) and isinstance(n.func, ast.Name) and n.func.id == "len" and n.args \
+                    and isinstance(n.args[0], ast.Name):
+                tgt = n.args[0]
+            elif isinstance(n, (ast.Attribute, ast.Subscript)) and isinstance(n.value, ast.Name) \
+                    and isinstance(n.ctx, ast.Load):
+                tgt = n.value
+            if tgt is not None and state.facts.allowed.get(tgt.id) == frozenset([none]):
+                key = ("none", tgt.id, getattr(n, "lineno", 0))
+                if key not in self.none_uses:
+                    self.none_uses[key] = (n, describe(state.facts))
 
 
 def _own_scope_loads(expr):
